@@ -48,6 +48,8 @@ type MemConn struct {
 
 	// WriteErr, when non-nil, is consulted on every WriteTo; a non-nil result fails the write.
 	WriteErr func(p []byte, to net.Addr) error
+	// Drop, when non-nil, is consulted on every WriteTo; true loses the datagram silently.
+	Drop func(p []byte, to net.Addr) bool
 	// ReadErr, when closed, makes ReadFrom fail with a non-ErrClosed error (relay socket failure).
 	ReadErr chan struct{}
 }
@@ -151,6 +153,9 @@ func (c *MemConn) WriteTo(p []byte, to net.Addr) (int, error) {
 		if err := c.WriteErr(p, to); err != nil {
 			return 0, err
 		}
+	}
+	if c.Drop != nil && c.Drop(p, to) {
+		return len(p), nil
 	}
 	ua, ok := to.(*net.UDPAddr)
 	if !ok {
